@@ -43,16 +43,16 @@ fn main() {
         }
     }
     let thorough = ctx.tier.thorough();
-    let bound = if thorough { 2 } else { 1 };
+    let bound = 2;
     let (rep, meta) = match ctx.prop.as_str() {
         "C01" => {
             let mut rep = value::run_value_engine(&ctx, Flags { c01: true, c09: false, c20: false });
             rep.distinct_nontrivial = rep.traces;
             rep.sample(json!({"part":"B","number":1020,"base":"ones","level":1,"deviation":{"path":"Msg1020.xn_second_deriv_km_s2","value":"2^-26"},"oracle":"decode(build(m)) same variant; build(decode(build(m))) == build(m)"}));
             (rep, Meta {
-                rule: "part B: bases = messages decoded from the zero / ones / testdata (/ counter) payloads of every supported type plus one message per distinct parse-trace shape reachable by one control-field deviation; each base is serialised to a value tree; 1 deviation = one leaf replaced by each member of its type-directed alphabet (integers: type bounds and structural constants; reals: zeros, subnormals, powers of two around the current value, +-eps neighbours, huge, +-inf, NaN; options None<->Some; strings of boundary lengths; signal identifiers as units; satellite ids incl. sibling ids) or one list restructured (empty, one, capacity-1, capacity, capacity+1, reversed, rotated, swapped, duplicated); thorough adds pairs over header leaves and first/last list elements. Every value the encoder accepts must decode to the same variant and re-encode byte-identically (equal twice-decoded messages where the statement allows). traces_validated = values accepted by the encoder and compared".into(),
+                rule: "part B: bases = messages decoded from the zero / ones / testdata (/ counter) payloads of every supported type plus one message per distinct parse-trace shape reachable by one control-field deviation; each base is serialised to a value tree; 1 deviation = one leaf replaced by each member of its type-directed alphabet (integers: type bounds and structural constants; reals: zeros, subnormals, powers of two around the current value, +-eps neighbours, huge, +-inf, NaN; options None<->Some; strings of boundary lengths; signal identifiers as units; satellite ids incl. sibling ids) or one list restructured (empty, one, capacity-1, capacity, capacity+1, reversed, rotated, swapped, duplicated); pairs over header leaves and first/last list elements up to a cap per base (2 000 quick / 60 000 thorough); leaves of long lists are explored on 6 (quick) / 16 (thorough) elements. Every value the encoder accepts must decode to the same variant and re-encode byte-identically (equal twice-decoded messages where the statement allows). traces_validated = values accepted by the encoder and compared".into(),
                 exhaustive: false,
-                bounds: json!({"deviation_bound": bound, "level2_cap_per_base": if thorough {60000} else {0}}),
+                bounds: json!({"deviation_bound": bound, "level2_cap_per_base": if thorough {60000} else {2000}}),
                 assumptions: vec!["values are built through Message: Deserialize; every public field is reachable that way".into()],
             })
         }
@@ -80,7 +80,7 @@ fn main() {
             (rep, Meta {
                 rule: "every Message value the E-value exploration constructs (no acceptance filter; bases, alphabets and bounds as for C01 part B), in the build profile named in 'profile': build_message returns without panicking; every returned frame is 8..=1029 bytes, starts with D3 and six zero bits, has a length field equal to its payload size, the message's own number in the first 12 payload bits and a CRC confirmed by the bit-wise CRC-24Q; Empty, Corrupt and MsgNotSupported(n) for all 4096 n are refused. states = distinct values constructed; transitions = build calls".into(),
                 exhaustive: false,
-                bounds: json!({"deviation_bound": bound, "level2_cap_per_base": if thorough {60000} else {0}}),
+                bounds: json!({"deviation_bound": bound, "level2_cap_per_base": if thorough {60000} else {2000}}),
                 assumptions: vec!["values are built through Message: Deserialize".into()],
             })
         }
